@@ -159,3 +159,18 @@ def placed(p):
     if k in TRANSFORM_KINDS:
         return (ot_transform(p), p.paint)
     return (ID, p)
+
+
+def leaves(p, T=ID):
+    """(glyph, accumulated affine) of every PaintGlyph leaf, left to right.  COLR semantics:
+    a transform paint's own affine is applied first, then its ancestors'."""
+    k = kind(p)
+    if k == "PaintGlyph":
+        return [(p.glyph, T)]
+    if k == "PaintColrLayers":
+        return [x for c in p.layers for x in leaves(c, T)]
+    if k == "PaintComposite":
+        return leaves(p.source, T) + leaves(p.backdrop, T)
+    if k in TRANSFORM_KINDS:
+        return leaves(p.paint, mul(T, ot_transform(p)))
+    return []
